@@ -30,11 +30,11 @@ CHECKS = {
  "C12": ("exploration", "§6 C12", "deterministic simulation: recovery of the closed directory with and without hint files, differential oracle",
          "The closed directory is materialised twice from the recorded shadow, once with every *.hint removed; both are opened with the real open and every key of the universe and on disk must read identically."),
  "C13": ("exploration", "§6 C13", "deterministic simulation: data-file sizes around every merge vs. independent size formula and ground-truth scan",
-         "At every merge total data size must not grow; when the I/O log shows every non-empty data file was selected the total must equal the size of a fresh store of the live pairs (independent formula), each live key occurs once, no tombstone remains, and a repeated merge changes nothing."),
+         "At every merge total data size must not grow; when the thresholds make every non-empty data file eligible (small-file threshold u64::MAX) or the I/O log shows every such file was removed, the total must equal the data size of a fresh store built by the real code from exactly the live pairs, each live key occurs once and no tombstone remains (independent decoder), and a repeated merge changes nothing."),
  "C14": ("exploration", "§6 C14", "deterministic simulation: I/O-log monitor of the file discipline over sequential and reopen workloads",
          "Every tracked libc call on the store directory is checked: exclusive append-only creation, writes only through the creating descriptor at the end of file, no pwrite/writev/truncate/rename/link, ids strictly above everything the directory ever contained, size bound per file, real bytes == recorded bytes."),
  "C03": ("fault_enumeration", "§6 C03", "deterministic simulation with crash injection: every file-system-call boundary of every sampled workload is a kill point; images built from the recorded shadow and recovered with the real open",
-         "For each sampled workload (set/del/merge/reopen, small file limits so rollovers and multi-file merges are common) every state-changing I/O record is a crash point (quick tier: at most 80 per workload, always including first/last record of every operation; thorough: all). The directory image after that prefix of calls is materialised and opened with the real Config::open; every key must read the acknowledged value or the in-flight operation's value, never error/panic/older value; on a share of images the recovered store must accept a set/get/del round and a second open must read the same."),
+         "For each sampled workload (set/del/merge/reopen, small file limits so rollovers and multi-file merges are common) every state-changing I/O record is a crash point (quick tier: at most 80 per workload, always including first/last record of every operation; thorough: all). The directory image after that prefix of calls is materialised and opened with the real Config::open; every key must read the acknowledged value or the in-flight operation's value, never error/panic/older value; on shares of the images the recovered store must accept a set/get/del round, a second open must read the same, and writes the recovered store acknowledges must survive its own clean close and reopen. A quarter of the workloads are concurrent (2-3 writer threads on disjoint keys plus a merging thread under a seeded schedule; crash points are positions in the global I/O log)."),
  "C06": ("exploration", "§6 C06", "deterministic simulation of the full stack: real Server on the simulated runtime and TCP model, one scripted client with seeded segmentation and pipelining, sequential map model, independent RESP reply decoder",
          "1-40 well-formed SET/GET/DEL requests (values with CR, LF, NUL, empty, >8 KiB; UTF-8 keys incl. empty and multi-byte; DEL with repeated/absent keys) sent in pieces of 1 byte / random sizes / whole, pipelining windows 1..all, socket capacities 64 B - 64 KiB (partial writes, back-pressure), per-segment delay, read segmentation down to one byte, spurious Pending. Exactly one reply per request, in order, equal to the model; nothing more; final store scan equals the model; the server stops on the shutdown signal."),
  "C08": ("exploration", "§6 C08", "deterministic simulation: two real Connection ends over one simulated stream (or a raw harness writer that stalls / cuts inside a frame), seeded segmentation; independent encoder as reference",
@@ -42,13 +42,13 @@ CHECKS = {
  "C09": ("fault_enumeration", "§6 C09", "deterministic simulation with power-loss injection: per crash point, per file any suffix after the last completed fsync is dropped; recovery with the real open vs. acknowledged-writes model",
          "Workloads under sync=always; every write/create/unlink/fsync record is a power-loss point with two images each: everything unsynced lost, and per-file random surviving lengths between synced and written length (torn tails, hint file ahead of data file). Same recovery oracle as C03."),
  "C20": ("fault_enumeration", "§6 C20", "deterministic simulation with I/O fault injection: one transient errno at each individual write/create/fsync/unlink call (thorough: also read-side calls), one fault per run, every position",
-         "A fault-free pass of the workload (plus a final merge and close/reopen) lists its faultable calls; then the workload is re-run once per position with that call failed (ENOSPC/EIO/EDQUOT/EMFILE/EACCES; writes also as short-write-then-error). The failed operation must return Err, every other key must read the model value at once, all later operations must succeed and behave, a later merge must succeed, and after close/reopen every acknowledged key reads its value."),
+         "A fault-free pass of the workload (plus a final merge and close/reopen) lists its faultable calls; then the workload is re-run once per position with that call failed (ENOSPC/EIO/EDQUOT/EMFILE/EACCES; writes also as short-write-then-error). The failed operation must return Err, every other key must read the model value at once, all later operations must succeed and behave, a later merge must succeed, after close/reopen every acknowledged key reads its value, and the reader pool is back at capacity. A third of the quick runs (half of the thorough ones) also fail read-side calls (open for reading, fstat, mmap, read, opendir); a fifth let the store's own timer-driven merge/sync tasks make the failing call, after which a later tick of the same instance must merge again."),
  "C15": ("exploration", "§6 C15", "deterministic simulation of the full stack: M in {1,2,3} slots, M+1..M+4 clients ending in every way the property lists (close, half-sent frame, reset, malformed command, handler panic and store error injected through the server's KV type parameter), accept errors with back-off on the simulated clock",
          "A connection is 'definitely held' from its first reply until its client performs the action that ends it. (i) never more than M definitely held; (ii) at every strongly quiescent point (nothing runnable, no timer pending) no client may still be waiting to be served; (iii) after all clients are gone M fresh clients must all be served at the same time."),
  "C16": ("exploration", "§6 C16", "deterministic simulation of the full stack: the shutdown future is a simulator one-shot fired at a scripted point of a connection's life (idle, mid-frame, mid-command, reply in flight, pipelined) or at a generated simulated time",
-         "0-4 clients on disjoint keys, all reading until end of stream. Oracles: Server::run returns within 60 simulated seconds (checked in growing steps); each client's byte stream is complete correct replies followed by end of stream (no torn reply); per connection the store holds a prefix of its requests at least as long as the replies it received; afterwards the port is free and no server task is alive."),
+         "0-4 clients on disjoint keys, all reading until end of stream. Oracles: Server::run returns within 60 simulated seconds (checked in growing steps) and no connection task is alive at the instant it returns; each client's byte stream is complete correct replies followed by end of stream (no torn reply); per connection the store holds a prefix of its requests at least as long as the replies it received; afterwards the port is free and no server task is alive."),
  "C17": ("exploration", "§6 C17", "deterministic simulation on the discrete-event clock: the store's background thread (adopted through pthread_create interposition) under seeded schedules, drop at generated instants, stale-handle use, immediate reopen, open/close cycles",
-         "Merge policy always / interval sync with check intervals from 10 ms to 1 h, disk latency stretching merges and syncs, 0-2 client threads racing the drop. Oracles: every operation invoked through a handle after the drop returned yields the 'closed' error; operations racing the drop go either way and define the model; the directory opens again at once and holds exactly the acknowledged contents; every background worker exits without the simulated clock having to reach its next timer (slack = injected disk latency only); no store descriptor stays open after the cycles."),
+         "Merge policy always / interval sync with check intervals from 10 ms to 1 h, disk latency stretching merges and syncs, 0-2 client threads racing the drop. Oracles: every operation invoked through a handle after the drop returned yields the 'closed' error; operations racing the drop go either way and define the model; the directory opens again at once and holds exactly the acknowledged contents; every background worker exits without the simulated clock having to reach its next timer (slack = 50 simulated ms plus injected disk latency; a worker still alive after two of its longest timer intervals is reported as never exiting); no store descriptor stays open after the cycles."),
  "C18": ("exploration", "§6 C18", "deterministic simulation on the discrete-event clock: triggers placed just above / exactly at / below the statistics a workload produced; merges and fsyncs observed in the I/O log with simulated timestamps",
          "Phase 1 produces a write pattern with background tasks off; phase 2 reopens with policy never/always and triggers set relative to the real per-file statistics (dead bytes or fragmentation just crossed, exactly equal, far above, far below), check intervals 10 ms - 1 h, jitter 0-1 with thread_rng forced to range extremes; then only simulated time passes. Oracles: never => no merge; trigger exceeded => first merge within interval*(1+jitter); not exceeded => no merge within 3 such spans; interval sync => no fsync gap longer than the interval and the forced file is the active one."),
  "C19": ("exploration", "§6 C19", "deterministic simulation: verif_dump bookkeeping vs. independent scan of the files after every operation",
